@@ -410,9 +410,19 @@ impl<'a, T: RealNumber, M: Matrix<T>, K: Kernel<T, M::RowVector>> Optimizer<'a, 
         for _ in 0..self.parameters.epoch {
             for i in Self::permutate(n) {
                 self.process(i, self.x.get_row(i), self.y.get(i), &mut cache);
+                #[cfg(smartcore_verif)]
+                crate::verif::tick("svc-row", || i as u64);
                 loop {
                     #[cfg(smartcore_verif)]
-                    crate::verif::tick("svc-reprocess");
+                    crate::verif::tick("svc-reprocess", || {
+                        crate::verif::digest_words(self.sv.iter().flat_map(|v| {
+                            vec![
+                                v.index as u64,
+                                crate::verif::bits(v.alpha),
+                                crate::verif::bits(v.grad),
+                            ]
+                        }))
+                    });
                     self.reprocess(tol, &mut cache);
                     self.find_min_max_gradient();
                     if self.gmax - self.gmin < good_enough {
